@@ -94,6 +94,43 @@ def _classifier_rule(ctx, prop="C10", rid="C10.R6"):
     return r6
 
 
+STATIC_DEFAULTS = ["42", "'f-g'", '"N/A"', "''", '""', "'yes' or 'no'", "'", '"<b>" & "]]>"', "a < b & c > d", "&amp;", "<!-- x -->", " padded ", "0", "1.50", "-", "yes",
+                   "ümlaut 😀", "${not_a_ref", "a'b", 'say "hi"', "( x )", "[1]", "line1\nline2"]
+
+
+def static_default_verbatim(ctx, rule, rid):
+    """A default the classifier calls static is the node's literal content, character for character: Question.xml_instance
+    evaluated on adversarial texts (quoted, markup-like, entity-like, padded) with the classifier answering 'static'."""
+    repo = ctx.repo
+    qcls = repo.cls("pyxform.question:InputQuestion")
+    xi = repo.cls("pyxform.question:Question").methods["xml_instance"]
+    gt = repo.cls("pyxform.section:Section").methods["generate_repeating_template"]
+    rcls = repo.cls("pyxform.section:RepeatingSection")
+    for d in STATIC_DEFAULTS:
+        q = _mk(ctx, qcls, "q1", default=d, type="text", bind={"type": "string"})
+        survey = Obj(None, {}, name="survey")
+        it = ctx.interp(rid, hooks={"fnname:node": node_hook, "fnname:default_is_dynamic": lambda i, a, k, n: False,
+                                    "fnname:insert_xpaths": lambda i, a, k, n: a[-2] if len(a) >= 2 else a[0]})
+        it.reset([])
+        try:
+            inst = it.call_function(xi, [q], {"survey": survey}, None, xi.node)
+            got = inst.text if isinstance(inst, NodeVal) else repr(inst)
+        except Raised as e:
+            got = f"raises {e.exc_name}"
+        rule.check(got == d, f"xml_instance[static default {d!r}]", "the instance node's content is the default exactly as written", xi.loc(), why_fail=f"node content {got!r}")
+        # ... and the repeat template copy carries the same text
+        rep = _mk(ctx, rcls, "r", type="repeat", children=[q])
+        q.attrs["parent"] = rep
+        it.reset([])
+        try:
+            tmpl = it.call_function(gt, [rep], {"survey": survey}, None, gt.node)
+            kids = [c for c in (tmpl.children if isinstance(tmpl, NodeVal) else []) if isinstance(c, NodeVal)]
+            got_t = kids[0].text if len(kids) == 1 else repr(tmpl)
+        except Raised as e:
+            got_t = f"raises {e.exc_name}"
+        rule.check(got_t == d, f"repeat template[static default {d!r}]", "the jr:template copy carries the same literal", gt.loc(), why_fail=f"template content {got_t!r}")
+
+
 def run(ctx):
     repo = ctx.repo
     rules = []
@@ -160,6 +197,7 @@ def run(ctx):
                          "inside repeats it also fires for new repeat instances", sv.loc())
     rules.append(r1)
 
+    static_default_verbatim(ctx, r1, "C10.R1")
     # ------------------------------------------------------------------ R2
     r2 = Rule("C10", "C10.R2", "exactly two placements, partitioned by repeat ancestry", floor=6,
               necessary="a dynamic default emitted in both places (twice) or in neither (lost), or for another repeat's rows")
